@@ -12,7 +12,8 @@
    All statements hold for every list of MaxSizes, every schedule (hence every number of callers, arrival order, shard assignment,
    timer behaviour, outcome of Many, cancellation point) and every state reached, without bound. *)
 From Coq Require Import List Arith.
-From Thunder Require Import Batch.Model Batch.Proofs.
+From Coq Require Import ZArith.
+From Thunder Require Import Batch.Model Batch.Proofs Batch.ModelTimed Batch.ProofsTimed.
 Import ListNotations.
 
 (* A caller that returned got, after its group was done, either the group's error or element [index] of
@@ -106,6 +107,91 @@ Theorem return_enabled_when_done : forall mss tr s ci cl,
 Proof. exact return_enabled_lemma. Qed.
 Print Assumptions return_enabled_when_done.
 
+(* ---- cancellation: whose context, and what the surviving callers get ---- *)
+
+(* Creator-cancel.  A group ends Cancelled only through its creator's context (g_ctxc); then Many is never called
+   for it ([runs_of gi tr = 0]: none of its arguments is fetched) and EVERY member that returns gets the context
+   error - the creator and, alike, every caller that joined on a context of its own that is still live (the
+   survivors get the error of a context that is not theirs, and their argument is not fetched).  A group that
+   ran never hands out the context error, whatever is cancelled afterwards.  And a finished group is never
+   joinable: the pending map only holds groups whose creator has not passed its second mutex section, so a caller
+   arriving after a cancelled creator unpublished gets a fresh group. *)
+Theorem cancellation_of_the_creator : forall mss tr s gi g,
+  run (init mss) tr = Some s -> nth_error (groups s) gi = Some g ->
+  (g_phase g = Cancelled ->
+     g_ctxc g = true /\ runs_of gi tr = 0 /\ g_many g = None /\
+     forall ci cl r, nth_error (callers s) ci = Some cl -> c_gid cl = gi -> c_ret cl = Some r -> r = RErr ECtx) /\
+  (g_phase g = Ran ->
+     forall ci cl r, nth_error (callers s) ci = Some cl -> c_gid cl = gi -> c_ret cl = Some r -> r <> RErr ECtx) /\
+  (forall f sh, lookup f sh (pending s) = Some gi -> g_phase g = Open \/ g_phase g = Woken).
+Proof. exact cancel_outcomes_lemma. Qed.
+Print Assumptions cancellation_of_the_creator.
+
+(* Joiner-cancel.  The step of a caller that finds a published group changes no group's cancellation flag, phase or
+   done flag, whatever the state of that caller's own context (with waiter_context_ignored: the step does not
+   depend on it at all): a joiner's cancellation cannot cancel the batch, cannot keep its argument from being
+   fetched, and does not make its Invoke return early. *)
+Theorem cancellation_of_a_joiner_changes_nothing : forall s f a sh c gi s',
+  lookup f sh (pending s) = Some gi -> step s (LJoin f a sh c) = Some s' ->
+  length (groups s') = length (groups s) /\
+  forall gj g', nth_error (groups s') gj = Some g' ->
+    exists g, nth_error (groups s) gj = Some g /\ g_ctxc g' = g_ctxc g /\ g_phase g' = g_phase g /\ g_done g' = g_done g.
+Proof. exact joiner_cannot_cancel_lemma. Qed.
+Print Assumptions cancellation_of_a_joiner_changes_nothing.
+
+(* The cancellation flag of a group is set by exactly two steps: the cancellation of its creator's context
+   (LCtxCancel of that group) and its creation by a caller whose context is already cancelled. *)
+Theorem cancellation_flag_only_by_creator : forall s l s' gi g',
+  step s l = Some s' -> nth_error (groups s') gi = Some g' -> g_ctxc g' = true ->
+  (exists g, nth_error (groups s) gi = Some g /\ g_ctxc g = true) \/ l = LCtxCancel gi \/
+  (gi = length (groups s) /\ exists f a sh, l = LJoin f a sh true /\ lookup f sh (pending s) = None).
+Proof. exact ctxc_only_by_creator_lemma. Qed.
+Print Assumptions cancellation_flag_only_by_creator.
+
+(* ---- the timers as data (Batch/ModelTimed.v) ----
+
+   Every step carries two stamps lo <= hi (ns) between which it happened; [cfg] lists f.WaitInterval and
+   f.MaxDuration per Func as configured, [eff_wait] / [eff_maxdur] substitute the defaults (1 ms, 20 ms) for values
+   <= 0 as Invoke does.  A group records the earliest instants at which its interval timer (re-armed by every join
+   that stops it in time) and its max-duration timer can have fired. *)
+
+(* The timed system refines the untimed one: erasing the stamps of any timed schedule gives a schedule of
+   Batch/Model.v reaching the same batch state - all theorems above hold of timed schedules. *)
+Theorem timed_refines_untimed : forall cfg mss tr s,
+  trun cfg (tinit mss) tr = Some s -> run (init mss) (erase tr) = Some (ts s).
+Proof. exact timed_refines_lemma. Qed.
+Print Assumptions timed_refines_untimed.
+
+(* A Go timer does not fire before its duration has elapsed: a wake-up by the interval timer is a step only at or
+   after the instant it was last armed for, one by the max-duration timer only at or after creation + MaxDuration. *)
+Theorem timer_wake_not_early : forall cfg s lo hi gi c s' tg,
+  tstep cfg s (lo, hi, LWake gi c) = Some s' -> nth_error (tgs s) gi = Some tg ->
+  (c = CInterval -> (tg_ideadline tg <= hi)%Z) /\ (c = CMaxDur -> (tg_mdeadline tg <= hi)%Z).
+Proof. exact timer_wake_not_early_lemma. Qed.
+Print Assumptions timer_wake_not_early.
+
+(* In every schedule in which timers fire on time ([prun]: exact stamps, time does not go backwards, does not pass
+   the instant at which a timer of a still-waiting creator is due, and a woken creator is not delayed), in every
+   reachable state and for every group: the max-duration deadline is creation + MaxDuration, the interval deadline
+   is the last join that stopped the timer + WaitInterval; a group that has not been dispatched is not overdue;
+   a group that was dispatched (Many called, or the context error stored) was dispatched no later than MaxDuration
+   after its creation and no later than WaitInterval after that last join; and once time is past either deadline
+   the group has been dispatched. *)
+Theorem dispatched_no_later_than_deadline : forall cfg mss tr s gi g,
+  prun cfg (tinit mss) tr = Some s -> nth_error (groups (ts s)) gi = Some g ->
+  exists tg, nth_error (tgs s) gi = Some tg /\
+    (tg_mdeadline tg = tg_created tg + eff_maxdur cfg (g_fid g))%Z /\
+    (tg_ideadline tg = tg_lastjoin tg + eff_wait cfg (g_fid g))%Z /\
+    (g_phase g = Open \/ g_phase g = Woken \/ g_phase g = Unpub ->
+       (tnow s <= tg_created tg + eff_maxdur cfg (g_fid g))%Z /\ (tnow s <= tg_lastjoin tg + eff_wait cfg (g_fid g))%Z) /\
+    (g_phase g = Ran \/ g_phase g = Cancelled ->
+       exists d, tg_dispatched tg = Some d /\
+                 (d <= tg_created tg + eff_maxdur cfg (g_fid g))%Z /\ (d <= tg_lastjoin tg + eff_wait cfg (g_fid g))%Z) /\
+    ((tg_created tg + eff_maxdur cfg (g_fid g) < tnow s)%Z \/ (tg_lastjoin tg + eff_wait cfg (g_fid g) < tnow s)%Z ->
+       g_phase g = Ran \/ g_phase g = Cancelled).
+Proof. exact dispatch_deadline_lemma. Qed.
+Print Assumptions dispatched_no_later_than_deadline.
+
 (* ---- the hypotheses are satisfiable by non-trivial states ---- *)
 
 (* MaxSize 2, two shards: callers 0,1 fill group 0 (roll-over), caller 2 (shard 1) creates group 1, caller 3
@@ -143,3 +229,48 @@ Example ex_not_enabled :
   run (init []) [LJoin 0 1 0 true; LWake 0 CCtxDone; LUnpublish 0; LRun 0 OErr] = None /\
   run (init []) [LJoin 0 1 0 false; LReturn 0] = None.
 Proof. vm_compute. repeat split; reflexivity. Qed.
+
+(* creator-cancel with survivors: caller 0 creates group 0, callers 1 and 2 join on live contexts of their own,
+   caller 0's context is cancelled: Many never runs, all three get the context error; caller 3 arrives after the
+   unpublish and gets a fresh group that runs.  A joiner's cancelled context (caller 4, flag true) changes nothing. *)
+Example ex_creator_cancel :
+  option_map (fun s => (map g_phase (groups s), map g_many (groups s), map c_ret (callers s)))
+    (run (init [0])
+       [ LJoin 0 1 0 false; LJoin 0 2 0 false; LJoin 0 3 0 false; LCtxCancel 0; LWake 0 CCtxDone; LUnpublish 0;
+         LJoin 0 4 0 false; LJoin 0 5 0 true; LCancel 0; LDone 0; LReturn 0; LReturn 1; LReturn 2;
+         LWake 1 CInterval; LUnpublish 1; LRun 1 (ORes [40; 50]); LDone 1; LReturn 3; LReturn 4 ])
+  = Some ([Cancelled; Ran], [None; Some [3; 4]],
+          [Some (RErr ECtx); Some (RErr ECtx); Some (RErr ECtx); Some (RVal 40); Some (RVal 50)]).
+Proof. vm_compute. reflexivity. Qed.
+
+(* a step at an exact instant *)
+Definition at_ (t : Z) (l : label) : tlabel := (t, t, l).
+Definition cfg1 : tconfig := [(100, 250)%Z].
+
+(* timers: WaitInterval 100, MaxDuration 250 (ns).  Created at 0; joins at 60 and 120 re-arm the interval timer
+   (deadline 220); the interval timer wakes the creator at 220, dispatch at 220 <= 250 and <= 120 + 100. *)
+Example ex_on_time :
+  option_map (fun s => (map g_phase (groups (ts s)), map (fun t => (tg_ideadline t, tg_mdeadline t, tg_dispatched t)) (tgs s)))
+    (prun cfg1 (tinit [0])
+       [ at_ 0 (LJoin 0 1 0 false); at_ 60 (LJoin 0 2 0 false); at_ 120 (LJoin 0 3 0 false);
+         at_ 220 (LWake 0 CInterval); at_ 220 (LUnpublish 0); at_ 220 (LRun 0 (ORes [1; 2; 3])) ])
+  = Some ([Ran], [(220, 250, Some 220)%Z]).
+Proof. vm_compute. reflexivity. Qed.
+
+(* joins every 90 keep re-arming the interval timer: the max-duration timer wakes the creator at 250 *)
+Example ex_maxdur_first :
+  option_map (fun s => map (fun t => (tg_ideadline t, tg_dispatched t)) (tgs s))
+    (prun cfg1 (tinit [0])
+       [ at_ 0 (LJoin 0 1 0 false); at_ 90 (LJoin 0 2 0 false); at_ 180 (LJoin 0 3 0 false);
+         at_ 250 (LWake 0 CMaxDur); at_ 250 (LUnpublish 0); at_ 250 (LRun 0 OErr) ])
+  = Some [(280, Some 250)%Z].
+Proof. vm_compute. reflexivity. Qed.
+
+(* an interval wake-up before the timer is due is not a step at all; a creator that sleeps past the deadline is a
+   timed schedule but not one in which timers fire on time; defaults replace durations <= 0 *)
+Example ex_early_and_late :
+  trun cfg1 (tinit [0]) [ at_ 0 (LJoin 0 1 0 false); at_ 60 (LJoin 0 2 0 false); at_ 150 (LWake 0 CInterval) ] = None /\
+  (exists s, trun cfg1 (tinit [0]) [ at_ 0 (LJoin 0 1 0 false); at_ 400 (LWake 0 CInterval) ] = Some s) /\
+  prun cfg1 (tinit [0]) [ at_ 0 (LJoin 0 1 0 false); at_ 400 (LWake 0 CInterval) ] = None /\
+  (eff_wait [(0, -5)%Z] 0, eff_maxdur [(0, -5)%Z] 0) = (1000000, 20000000)%Z.
+Proof. vm_compute. repeat split; try reflexivity. eexists. reflexivity. Qed.
